@@ -52,6 +52,7 @@ type Lifter struct {
 	Allocs  []Alloc
 	Lim     Limiter
 	Returns []string // rendered operands of return statements
+	WireAdv int      // advances derived from a length prefix on the wire
 	curRoot string
 	Safe    bool     // reader: checks are required
 }
@@ -216,6 +217,12 @@ func (l *Lifter) lin(e ast.Expr) (Lin, bool) {
 		}
 		if recv, c, ok := methodCall(x, "Size"); ok && len(c.Args) == 0 {
 			return Term("size("+l.op(recv)+")", 1), true
+		}
+		// the u32 length prefix found at the cursor
+		if c, name, ok := l.iohelpCall(x); ok && name == "ReadUint32Bytes" && len(c.Args) == 1 {
+			if off, ok := l.bufOffset(c.Args[0]); ok && off.IsZero() {
+				return Term("wirelen(at)", 1), true
+			}
 		}
 	case *ast.Ident:
 		return Term("val("+x.Name+")", 1), true
